@@ -5,6 +5,8 @@ use std::io::{BufWriter, Write};
 
 pub struct Tracer {
     out: Box<dyn Write>,
+    /// records held back until `release_after` (for a call record that can only be written once the call returned)
+    held: Option<Vec<Value>>,
     pub records: u64,
     /// when set, records are also kept in memory (for replay files of a single run)
     pub keep: Option<Vec<String>>,
@@ -22,6 +24,7 @@ pub fn open(path: &str) {
     TRACER.with(|t| {
         *t.borrow_mut() = Some(Tracer {
             out: Box::new(BufWriter::with_capacity(1 << 20, f)),
+            held: None,
             records: 0,
             keep: None,
         })
@@ -32,6 +35,7 @@ pub fn open_null() {
     TRACER.with(|t| {
         *t.borrow_mut() = Some(Tracer {
             out: Box::new(std::io::sink()),
+            held: None,
             records: 0,
             keep: None,
         })
@@ -49,9 +53,30 @@ pub fn close() -> u64 {
     })
 }
 
+/// Hold back all records from now on.
+pub fn hold() {
+    TRACER.with(|t| {
+        if let Some(tr) = t.borrow_mut().as_mut() {
+            tr.held = Some(vec![]);
+        }
+    });
+}
+/// Write `first`, then the records held back since `hold`.
+pub fn release_after(first: Value) {
+    let held = TRACER.with(|t| t.borrow_mut().as_mut().and_then(|tr| tr.held.take())).unwrap_or_default();
+    rec(first);
+    for v in held {
+        rec(v);
+    }
+}
+
 pub fn rec(v: Value) {
     TRACER.with(|t| {
         if let Some(tr) = t.borrow_mut().as_mut() {
+            if let Some(h) = tr.held.as_mut() {
+                h.push(v);
+                return;
+            }
             let s = serde_json::to_string(&v).unwrap();
             tr.out.write_all(s.as_bytes()).unwrap();
             tr.out.write_all(b"\n").unwrap();
